@@ -51,6 +51,9 @@ func WorkerMain(id, tier string) int {
 				runCase(c, ix, trace)
 			}
 		}
+		if c.xhUsed {
+			c.Counters[fmt.Sprintf("xhash|%s|%d|%d", sc.Name, lo, hi)] = c.xh | 1
+		}
 		r := shardResult{Scope: si, Lo: lo, Hi: hi, Execs: c.Execs, Nontrivial: c.Nontrivial,
 			Counters: c.Counters, NViol: c.nViol, Viol: c.Viol, ViolCases: c.ViolCases}
 		out.Write(mustJSON(r))
